@@ -56,7 +56,7 @@ class Beta(Distribution):
     def cdf(self, x):
 
         # Check bounds
-        if np.any(x<=0) or np.any(x>=1) or np.any(self.alpha<=0) or np.any(self.beta<=0):
+        if np.any(x<=0) or np.any(self.alpha<=0) or np.any(self.beta<=0):
             return 0
 
         # Compute logpdf
